@@ -20,6 +20,8 @@ import (
 type c14EzNested struct {
 	IdleTimeout int    `dials:"idleTimeout" dialsalias:"idleLimit"`
 	Plain       string `dials:"plainField"`
+	// alias tags that belong to other sources only: in a file this field has one name
+	Zone string `dials:"zone" dialsenvalias:"LEGACY_ZONE" dialspflagalias:"legacy-zone"`
 }
 
 type c14EzCfg struct {
@@ -29,6 +31,8 @@ type c14EzCfg struct {
 	Nested      c14EzNested `dials:"nestedBlock" dialsalias:"legacyBlock"`
 	// a collection under an alias: an explicitly empty list is a value too
 	HostList []string `dials:"hostList" dialsalias:"serverList"`
+	// the flag source knows this field under two names, the file decoder and the environment source under one
+	Region string `dials:"region" dialsflagalias:"oldRegion"`
 }
 
 // ConfigPath implements ez.ConfigWithConfigPath.
@@ -139,6 +143,21 @@ func c14Ez(w *fw.Worker, i int, r *fw.Rand) {
 		nested[key("plainField", "plain", "field")] = "pf"
 		want.Nested.Plain = "pf"
 	}
+	foreign := ""
+	if r.Chance(60) {
+		nested["zone"] = "z1"
+		want.Nested.Zone = "z1"
+		foreign += "z"
+	}
+	if r.Chance(60) {
+		doc["region"] = "r1"
+		want.Region = "r1"
+		foreign += "r"
+	}
+	if foreign != "" {
+		w.Count("leaves_with_only_another_sources_alias_tag_supplied", int64(len(foreign)))
+	}
+	pat += "|" + foreign
 	// the struct-typed field is aliased too: its section may appear under either name (inner aliases work in both),
 	// and a document holding both keys is an error even when one section is empty
 	blockPrimary, blockAlias := key("nestedBlock", "nested", "block"), key("legacyBlock", "legacy", "block")
@@ -231,6 +250,9 @@ func c14Ez(w *fw.Worker, i int, r *fw.Rand) {
 				cls = "plain"
 			}
 			cls += ":block=" + blockPat
+			if got.Region != want.Region || got.Nested.Zone != want.Nested.Zone {
+				cls += ":field-whose-only-alias-tags-belong-to-other-sources"
+			}
 			w.Violation(i, "alias-result-differs:ez:"+cls, fmt.Sprintf("want %+v got %+v", want, got), desc)
 			return
 		}
